@@ -392,3 +392,223 @@ func sameSliceSource(a, b ssa.Value) bool {
 	}
 	return pa.Root != nil
 }
+
+// ---------- length guards ----------
+
+// lenAtLeast: at instruction `at`, len(s) >= need is implied by a dominating branch fact
+// (len(s) == c, len(s) >= c, len(s) > c, or their negated forms from early returns), for the slice value s or a
+// re-slice s[lo:] of a guarded base with constant lo.
+func lenAtLeast(s ssa.Value, need int64, at ssa.Instruction) bool {
+	base, lo := s, int64(0)
+	if sl, ok := s.(*ssa.Slice); ok && sl.High == nil && sl.Max == nil {
+		if sl.Low == nil {
+			base = sl.X
+		} else if k, ok := constInt(sl.Low); ok {
+			base, lo = sl.X, k
+		}
+	}
+	for _, c := range cmpsAt(at) {
+		if c.Y == nil {
+			continue
+		}
+		x, y, op := c.X, c.Y, c.Op
+		if _, isK := constInt(x); isK {
+			x, y, op = y, x, swapOp(op)
+		}
+		k, isK := constInt(y)
+		if !isK || !(isLenOf(x, base) || isLenOf(x, s)) {
+			continue
+		}
+		eff := k - lo
+		if isLenOf(x, s) && !isLenOf(x, base) {
+			eff = k
+		}
+		switch op {
+		case token.EQL, token.GEQ:
+			if eff >= need {
+				return true
+			}
+		case token.GTR:
+			if eff+1 >= need {
+				return true
+			}
+		}
+	}
+	return false
+}
+
+// sameFieldLoad: a and b are loads of the same field of the same object and no store to that field lies on a path between them.
+func (fc *flowCtx) sameFieldLoad(a, b ssa.Value) bool {
+	if a == b {
+		return true
+	}
+	la, ok1 := a.(*ssa.UnOp)
+	lb, ok2 := b.(*ssa.UnOp)
+	if !ok1 || !ok2 || la.Op != token.MUL || lb.Op != token.MUL {
+		return false
+	}
+	fa, ok1 := la.X.(*ssa.FieldAddr)
+	fb, ok2 := lb.X.(*ssa.FieldAddr)
+	if !ok1 || !ok2 || fieldOf(fa.X.Type(), fa.Field) != fieldOf(fb.X.Type(), fb.Field) || !sameFieldBase(fa, fb) {
+		return false
+	}
+	fn := la.Parent()
+	if fn != lb.Parent() {
+		return false
+	}
+	fld := fieldOf(fa.X.Type(), fa.Field)
+	isStore := func(i ssa.Instruction) bool {
+		st, ok := i.(*ssa.Store)
+		if !ok {
+			return false
+		}
+		sfa, ok := st.Addr.(*ssa.FieldAddr)
+		return ok && fieldOf(sfa.X.Type(), sfa.Field) == fld
+	}
+	// any store between a and b (in either order)?
+	for _, pr := range [][2]ssa.Instruction{{la, lb}, {lb, la}} {
+		stores := false
+		allInstrs(fn, func(i ssa.Instruction) {
+			if isStore(i) && fc.reachableFrom(fn, pr[0], i) && fc.reachableFrom(fn, i, pr[1]) {
+				stores = true
+			}
+		})
+		if stores {
+			return false
+		}
+	}
+	return true
+}
+
+// nonNilAt: v != nil is known at `at`, also when the guard compared another load of the same field.
+func (fc *flowCtx) nonNilAt(v ssa.Value, at ssa.Instruction) bool {
+	if knownNonNil(v, at) {
+		return true
+	}
+	for _, c := range cmpsAt(at) {
+		if c.Op != token.NEQ || c.Y == nil {
+			continue
+		}
+		var other ssa.Value
+		if isNilConst(c.Y) {
+			other = c.X
+		} else if isNilConst(c.X) {
+			other = c.Y
+		} else {
+			continue
+		}
+		if fc.sameFieldLoad(peel(other), peel(v)) {
+			return true
+		}
+	}
+	return false
+}
+
+// ---------- error flow ----------
+
+// errOutcome describes how the error result of a call is treated.
+type errOutcome struct {
+	ok      bool
+	msg     string
+	site    ssa.Instruction
+	witness []ssa.Instruction
+}
+
+// isSuccessReturn: a Return whose last result (type error) is the nil constant.
+func isSuccessReturn(i ssa.Instruction) bool {
+	ret, ok := i.(*ssa.Return)
+	if !ok || isRecoverBlockReturn(ret) {
+		return false
+	}
+	n := len(ret.Results)
+	if n == 0 {
+		return false
+	}
+	sig := ret.Parent().Signature.Results()
+	if !isErrorType(sig.At(n - 1).Type()) {
+		return false
+	}
+	return isNilConst(retVals(ret)[n-1])
+}
+
+func isErrorReturn(i ssa.Instruction) bool {
+	ret, ok := i.(*ssa.Return)
+	if !ok || isRecoverBlockReturn(ret) {
+		return false
+	}
+	n := len(ret.Results)
+	if n == 0 {
+		return false
+	}
+	sig := ret.Parent().Signature.Results()
+	if !isErrorType(sig.At(n - 1).Type()) {
+		return false
+	}
+	return !isNilConst(retVals(ret)[n-1])
+}
+
+// errPropagated: the error value e (result of a call in fn) is tested against nil, and once it is known to be non-nil
+// control can neither reach a success return of fn nor come back to the call (a `continue`).
+// allowEOF accepts `errors.Is(e, io.EOF)`/`e == io.EOF` as the one permitted non-propagating branch.
+func (fc *flowCtx) errPropagated(fn *ssa.Function, call ssa.Instruction, e ssa.Value) errOutcome {
+	if e == nil {
+		return errOutcome{false, "the error result is discarded", call, nil}
+	}
+	// find the branch blocks where e != nil is known
+	var errBlocks []*ssa.BasicBlock
+	for _, b := range fn.Blocks {
+		if len(b.Preds) != 1 {
+			continue
+		}
+		p := b.Preds[0]
+		iff, ok := p.Instrs[len(p.Instrs)-1].(*ssa.If)
+		if !ok {
+			continue
+		}
+		for _, c := range trueCmps(fact{iff.Cond, p.Succs[0] == b}) {
+			if c.Op == token.NEQ && c.Y != nil && ((sameValue(c.X, e) && isNilConst(c.Y)) || (sameValue(c.Y, e) && isNilConst(c.X))) {
+				errBlocks = append(errBlocks, b)
+			}
+		}
+	}
+	if len(errBlocks) == 0 {
+		// not tested: acceptable only if e is returned directly as the function's error on every path
+		allRet := true
+		n := 0
+		for _, r := range usesOf(e) {
+			switch x := r.(type) {
+			case *ssa.Return:
+				n++
+				_ = x
+			case *ssa.Store:
+				// result cell of a function with defers
+				n++
+			case *ssa.Phi:
+				n++
+			default:
+				allRet = false
+			}
+		}
+		if n > 0 && allRet {
+			return errOutcome{true, "returned to the caller", call, nil}
+		}
+		return errOutcome{false, "the error is never compared with nil", call, nil}
+	}
+	for _, b := range errBlocks {
+		first := b.Instrs[0]
+		bad := func(i ssa.Instruction) bool { return isSuccessReturn(i) || i == call }
+		// search from the first instruction of the error branch (inclusive)
+		if bad(first) {
+			return errOutcome{false, "the error branch returns success", first, nil}
+		}
+		if p := fc.pathAvoiding(fn, first, bad, nil); p != nil {
+			lastI := p[len(p)-1]
+			msg := "with the error known to be non-nil, control reaches a successful return: the failure is swallowed"
+			if lastI == call {
+				msg = "with the error known to be non-nil, control goes back to the call (the failing item is skipped silently)"
+			}
+			return errOutcome{false, msg, lastI, p}
+		}
+	}
+	return errOutcome{true, "tested against nil; the non-nil branch only reaches error returns", call, nil}
+}
